@@ -167,18 +167,37 @@ func run(e *vlib.Env) vlib.Result {
 		// "Publish returns only after every active subscription acked it (or that subscription ... was closed)",
 		// so now every Publish has to return.
 		hasNever := false
-		for i, sp := range prog.Subs {
+		for _, sp := range prog.Subs {
 			if sp.NeverAck {
 				hasNever = true
-				rn.CancelSub(i)
 			}
 		}
-		if hasNever {
+		// ... "(or that subscription or the Pub/Sub was closed)": in half of these cases the whole Pub/Sub is closed instead
+		byClose := hasNever && vlib.HashStr(e.ID()+"/release-by-close")%2 == 0
+		if hasNever && !byClose {
+			for i, sp := range prog.Subs {
+				if sp.NeverAck {
+					rn.CancelSub(i)
+				}
+			}
 			released = true
 			res.Count("never_ack_subscriptions_cancelled_to_release_publishers", 1)
 			oc, dump = vlib.WaitClosed(rn.PubsDone(), vlib.WD)
 			if oc == vlib.Inconclusive {
 				res.Inconclusive("publishers neither finished nor quiescent after the never-acking subscriptions were cancelled")
+			}
+		}
+		if byClose {
+			released = true
+			res.Count("pubsub_closed_to_release_publishers", 1)
+			closed := rn.Close(1)
+			oc, dump = vlib.WaitClosed(rn.PubsDone(), vlib.WD)
+			if oc == vlib.Inconclusive {
+				res.Inconclusive("publishers neither finished nor quiescent after the Pub/Sub was closed")
+			}
+			if o, d := vlib.WaitClosed(closed, vlib.WD); o == vlib.Stuck {
+				res.Fail("publish-stuck", "blocking mode: the Pub/Sub was closed while Publish calls were waiting for a never-acking subscription; Close never returned (process quiescent) - the blocked Publish calls cannot return either")
+				res.Witness = vlib.Trunc(d, 60000)
 			}
 		}
 	}
@@ -278,6 +297,11 @@ func judge(rn *gcw.Run, res *vlib.Result, stuck bool, dump string, released bool
 					continue
 				}
 				fr, ok := firstRecv[p.UUID]
+				if cs := rn.CloseStart.Load(); ok && cs != 0 && fr > cs {
+					// received after the harness had started closing the Pub/Sub: the ack waits that order the
+					// deliveries are void from then on ("or the Pub/Sub was closed")
+					ok = false
+				}
 				if !ok {
 					continue
 				}
@@ -308,6 +332,9 @@ func judge(rn *gcw.Run, res *vlib.Result, stuck bool, dump string, released bool
 			continue
 		}
 		if p.Err != "" {
+			if cs := rn.CloseStart.Load(); cs != 0 && p.End > cs {
+				continue // the harness had started closing the Pub/Sub before this call returned
+			}
 			res.Fail("publish-error", "Publish of %s failed on an open Pub/Sub: %s", p.UUID, p.Err)
 			continue
 		}
